@@ -171,6 +171,14 @@ func init() {
 		e["reuse1"] = sback(r1, err)
 		r2, err := size.DefaultParser(reused([]byte(strconv.FormatUint(uint64(n)^1, 10))), 0)
 		e["reuse2"] = sback(r2, err)
+		// the pretty rendering in a caller's buffer, parsed twice without the caller touching it
+		pb := []byte(n.PrettyString())
+		keep := string(pb)
+		p1, err := size.DefaultParser(pb, 0)
+		e["pp1"] = sback(p1, err)
+		p2, err := size.DefaultParser(pb, 0)
+		e["pp2"] = sback(p2, err)
+		e["ppkept"] = string(pb) == keep
 		e["pp"] = sback(size.DefaultParser([]byte(n.PrettyString()), 0))
 		return e
 	}
